@@ -25,7 +25,8 @@ RULE = (
     "claimed for stored spikes only) x channel permutations/sub-lists, get_template_features for "
     "stored spikes. (pca) no feature files but a waveform store: features must equal +-X_c u_k "
     "for the three leading eigenvectors of cov(X_c)+I/n (only components with a relative "
-    "eigen-gap > 1e-6; rtol 1e-4 because PCs are rounded to float32). Oracle: triple loop 'value "
+    "eigen-gap > 1e-6; rtol 1e-4 because PCs are rounded to float32); one hand-made case requests "
+    "1200 spikes at once (thorough: 999 / 1000 / 1200 / 2500). Oracle: triple loop 'value "
     "whose column index names that channel for the spike's template, else 0'. Non-trivial: a "
     "requested channel absent for some spikes and present for others, or an unsorted request, or "
     "a row table.")
@@ -83,12 +84,22 @@ def _pca_case(draw):
             'max_per_template': draw(st.integers(2, 8)), 'max_channels': draw(st.integers(1, nc))}
 
 
+def _pca_large_cases(th):
+    for ns in ([1200] if not th else [999, 1000, 1200, 2500]):
+        yield {'k': 'pca', 'spec': D.large_pca_spec(ns), 'spikes': list(range(0, ns)),
+               'channels': [2, 0, 3], 'max_per_template': 100000, 'max_channels': 4,
+               'large': True}
+
+
 def drivers(tier):
     th = tier == 'thorough'
     return [
         dict(kind='hyp', name='from_sparse', strategy=_fs_case(), examples=400000 if th else 30000),
         dict(kind='hyp', name='model', strategy=_model_case(), examples=60000 if th else 5000),
         dict(kind='hyp', name='pca', strategy=_pca_case(), examples=15000 if th else 1500),
+        dict(kind='enum', name='pca-large', exhaustive=False, bound='1200 (thorough: also 999, '
+             '1000, 2500) spikes with waveforms in one request',
+             cases=lambda: _pca_large_cases(th)),
     ]
 
 
@@ -294,4 +305,6 @@ def classify(case, info):
             nt = True
         if info.get('stored', 0) < len(case['spikes']):
             labels.append('pca:some-spikes-outside-store')
+        if case.get('large'):
+            labels.append('pca:>=1000-spikes-in-one-request')
     return labels, nt
